@@ -48,6 +48,10 @@ type Case struct {
 	// Fixed names a hand-written program instantiated with Width.
 	Fixed string `json:"fixed,omitempty"`
 	Width int    `json:"width,omitempty"`
+	// Rot rotates the parameters a hand-written program refers to: the body
+	// uses a[(i+Rot) mod n] where the plain program uses a[i] (same gate
+	// counts, different wiring).  Only drawn by the unit rounds.
+	Rot int `json:"rot,omitempty"`
 	// Inputs holds one bit pattern (0x..) per party.
 	Inputs []string `json:"inputs"`
 	Sched  Sched    `json:"sched"`
@@ -172,6 +176,19 @@ func compileGMW(src string) (circ *circuit.Circuit, err error) {
 }
 
 func prepare(cs Case) (*compiled, *ev.Outcome) {
+	c, out := prepareModel(cs)
+	if out != nil {
+		return nil, out
+	}
+	if out := c.compile(cs.N); out != nil {
+		return nil, out
+	}
+	return c, nil
+}
+
+// prepareModel builds the source, the packed inputs and the model outputs of
+// a case without compiling anything.
+func prepareModel(cs Case) (*compiled, *ev.Outcome) {
 	skip := func(why string) (*compiled, *ev.Outcome) {
 		return nil, &ev.Outcome{Skip: why}
 	}
@@ -184,7 +201,10 @@ func prepare(cs Case) (*compiled, *ev.Outcome) {
 		if fp == nil || cs.Width < 1 {
 			return skip("malformed case")
 		}
-		c.src = fp.source(cs.N, cs.Width)
+		if cs.Rot < 0 || cs.Rot >= cs.N {
+			return skip("malformed case")
+		}
+		c.src = rotateParams(fp.source(cs.N, cs.Width), cs.N, cs.Rot)
 		c.feat = "fixed-" + fp.name
 		for _, s := range cs.Inputs {
 			v, ok := new(big.Int).SetString(s, 0)
@@ -193,7 +213,11 @@ func prepare(cs Case) (*compiled, *ev.Outcome) {
 			}
 			c.inputs = append(c.inputs, v.And(v, maskW(cs.Width)))
 		}
-		c.model = fp.model(c.inputs, cs.Width)
+		seen := make([]*big.Int, cs.N)
+		for i := range seen {
+			seen[i] = c.inputs[(i+cs.Rot)%cs.N]
+		}
+		c.model = fp.model(seen, cs.Width)
 	} else {
 		if cs.Prog == nil || cs.Prog.Main() == nil || len(cs.Prog.Main().Params) != cs.N {
 			return skip("malformed case")
@@ -214,21 +238,26 @@ func prepare(cs Case) (*compiled, *ev.Outcome) {
 			c.model = append(c.model, p.Pack(r, want[i]))
 		}
 	}
+	return c, nil
+}
+
+// compile compiles c.src for the GMW target into c.circ.
+func (c *compiled) compile(n int) *ev.Outcome {
 	circ, err := compileGMW(c.src)
 	if err != nil {
 		// Whether a program compiles for the GMW target is the business of
 		// C03/C07 (compiler, circuit library), not of the protocol.
 		ev.Get(prop).Count("compile-failed/"+compileErrClass(err), 1)
 		fmt.Printf("c10: skipped, program does not compile for TargetGMW: %v\n%s\n", err, c.src)
-		return skip("program does not compile for TargetGMW (C03/C07 domain)")
+		return &ev.Outcome{Skip: "program does not compile for TargetGMW (C03/C07 domain)"}
 	}
 	c.circ = circ
-	if circ.NumParties() != cs.N {
+	if circ.NumParties() != n {
 		o := ev.Fail("circuit/arity", "circuit has %d parties, main has %d parameters\n%s",
-			circ.NumParties(), cs.N, c.src)
-		return nil, &o
+			circ.NumParties(), n, c.src)
+		return &o
 	}
-	return c, nil
+	return nil
 }
 
 // shape is the AND structure of a levelled circuit, computed independently of
